@@ -69,10 +69,11 @@ class Ctx:
         self.rule_doc: dict[str, str] = {}
 
     # -- engines
-    def cfg(self, f: FuncInfo) -> CFG:
-        if f.qual not in self._cfgs:
-            self._cfgs[f.qual] = CFG(f.node)
-        return self._cfgs[f.qual]
+    def cfg(self, f: FuncInfo, all_raise: bool = False) -> CFG:
+        key = f.qual + ("#all_raise" if all_raise else "")
+        if key not in self._cfgs:
+            self._cfgs[key] = CFG(f.node, all_raise=all_raise)
+        return self._cfgs[key]
 
     def func(self, qual: str) -> FuncInfo:
         return self.repo.func(qual)
